@@ -757,3 +757,10 @@ Proof.
     pose proof (sendmsg_loop_timeout_exhausted _ _ _ _ _ _ _ _ Hout HF) as L.
     pose proof (sendmsg_loop_dt_ge F ri (Z.to_nat iov) fuel (build_deque drop_empty chunks) (Some t) s sels Hc). lia.
 Qed.
+
+(* the asynchronous iterator with timeout=None (normalised to inf) never ends with TimeoutError *)
+Lemma aiter_none_never_times_out : forall arr, Forall (fun st => as_out st <> E_TIMEOUT) (aiter_run None arr).
+Proof.
+  induction arr as [|a arr IH]; simpl; [constructor|].
+  destruct a as [d|]; simpl; (constructor; [unfold E_TIMEOUT, E_CONN; simpl; lia | exact IH]).
+Qed.
